@@ -207,3 +207,123 @@ def callee_path(n):
         if f.get("k") == "Path":
             return (f.get("res") or {}).get("path", "")
     return ""
+
+
+# ---------------------------------------------------------------------------
+# format!/write! templates (new fmt::Arguments byte-template lowering)
+# ---------------------------------------------------------------------------
+
+def decode_template(bs):
+    """byte template -> list of ('lit', str) | ('arg', index or None)"""
+    out = []
+    i = 0
+    nxt = 0
+    n = len(bs)
+    while i < n:
+        b = bs[i]
+        i += 1
+        if b == 0:
+            break
+        if b < 0x80:
+            out.append(("lit", bytes(bs[i : i + b]).decode("utf-8", "replace")))
+            i += b
+        elif b == 0x80:
+            ln = bs[i] | (bs[i + 1] << 8)
+            i += 2
+            out.append(("lit", bytes(bs[i : i + ln]).decode("utf-8", "replace")))
+            i += ln
+        elif b & 0xC0 == 0xC0:
+            if b & 0x01:
+                i += 4
+            if b & 0x02:
+                i += 2
+            if b & 0x04:
+                i += 2
+            idx = None
+            if b & 0x08:
+                idx = bs[i] | (bs[i + 1] << 8)
+                i += 2
+            if idx is None:
+                idx = nxt
+            nxt = idx + 1
+            out.append(("arg", idx))
+        else:
+            break
+    return out
+
+
+def _expr_name(n):
+    """short rendering of a format argument expression"""
+    fc = field_chain(n)
+    if fc:
+        return ".".join(fc)
+    while isinstance(n, dict) and n.get("k") in ("AddrOf", "Unary"):
+        n = n["x"]
+    if isinstance(n, dict) and n.get("k") == "Call":
+        f = callee_path(n).split("::")[-1]
+        inner = ",".join(_expr_name(a) for a in n.get("args", []))
+        return f"{f}({inner})"
+    if isinstance(n, dict) and n.get("k") == "MethodCall":
+        return f"{_expr_name(n['recv'])}.{n['name']}()"
+    if isinstance(n, dict) and n.get("k") == "Lit":
+        return repr(n["lit"])
+    return "?"
+
+
+def render_string_expr(n):
+    """Render a string-valued expression: literal, format!(..), &x, x.as_str(), local -> text with {name}
+    placeholders; None when it is not recognisable."""
+    while isinstance(n, dict) and n.get("k") in ("AddrOf",):
+        n = n["x"]
+    if not isinstance(n, dict):
+        return None
+    if n.get("k") == "Lit":
+        return n["lit"].get("str") if isinstance(n.get("lit"), dict) else None
+    if n.get("k") == "MethodCall" and n["name"] in ("as_str", "to_string", "to_owned", "clone", "into", "as_ref") and not n["args"]:
+        return render_string_expr(n["recv"])
+    if n.get("k") == "Path":
+        r = n.get("res") or {}
+        if "local" in r:
+            return "{" + r["local"] + "}"
+        return None
+    if n.get("k") in ("Call", "Block"):
+        # format! expansion: find Arguments::new(template, &args)
+        tpl = None
+        tup = None
+        arr = None
+        for m in walk(n):
+            if m.get("k") == "Call" and callee_path(m).endswith("Arguments::<'a>::new") and m.get("args"):
+                for a in walk(m["args"][0]):
+                    if a.get("k") == "Lit" and isinstance(a.get("lit"), dict) and "bytes" in a["lit"]:
+                        tpl = a["lit"]["bytes"]
+            if m.get("k") == "Call" and callee_path(m).split("::")[-1] in ("from_str", "new_const") and "Arguments" in callee_path(m) and m.get("args"):
+                s = render_string_expr(m["args"][0])
+                if s is not None:
+                    return s
+            if m.get("k") == "Let" and m.get("pat", {}).get("name") == "args" and isinstance(m.get("init"), dict):
+                if m["init"].get("k") == "Tup":
+                    tup = m["init"]["items"]
+                elif m["init"].get("k") == "Array":
+                    arr = m["init"]["items"]
+        if tpl is None:
+            return None
+        parts = decode_template(tpl)
+        names = []
+        if arr is not None:
+            for it in arr:
+                # Argument::new_display(args.N)
+                src = None
+                for f in walk(it):
+                    if f.get("k") == "Field" and f["name"].isdigit() and tup is not None:
+                        idx = int(f["name"])
+                        if idx < len(tup):
+                            src = _expr_name(tup[idx])
+                names.append(src or "?")
+        out = ""
+        for kind, v in parts:
+            if kind == "lit":
+                out += v
+            else:
+                out += "{" + (names[v] if v is not None and v < len(names) else "?") + "}"
+        return out
+    return None
